@@ -13,12 +13,14 @@ COQ_PROP_OK = "prop_ok"
 RULE = ("seeded configurations: time scale in {1/4,1/2,1,2,4}, interval and offset dyadic (offset sometimes >= interval), up to 25 ticks each with a loop overhead, a step "
         "duration chosen below / exactly at / above the interval (in system time), and a pause of random real length at the loop guard before some ticks (half of them the pause of a state save: the clock's state is exported in the middle). "
         "Step starts are taken from the library's clock and from the reference system time kept by the harness. "
+        "Plus whole-system runs: launch() with a fixed-interval interaction under the deterministic scheduler, time scale 1/2, 1, 2 or 4 and dyadic durations; the step starts, step durations and loop overheads of the inference thread are read off the run and go through the same model and oracle. "
         "Non-trivial = contains a step shorter than, one longer than the interval, and a pause; distinct = canonical JSON.")
 TRUSTED = [
     "Coq 8.16.1 kernel incl. vm_compute",
     "hand-written model coq/Model/Interval.v of interval_adjustors.py and FixedIntervalInteraction on the abstract clock (C06 ties the abstract clock to time.py)",
     "harness/impl/c16.py: public functions of module pamiq_core.time pointed at a TimeController on a virtual raw clock; ticks driven by the runner, pauses applied at the guard as the thread loop does",
     "float arithmetic exact on the generated dyadic values",
+    "whole-system runs: harness/sim (deterministic scheduler, virtual time) as for C01; the interaction's setup and the adjustor's adjust wrapped at instance level to record instants",
 ]
 ASSUMPTIONS = ["system pauses take effect at the loop guard (C01); a raw pamiq_core.time.pause() issued by user code during the adjustor's sleep is outside the property",
                "in a launched system the overhead between two steps is the loop delay plus the guard; the thread-level run is exercised by the C01/C02 harness"]
@@ -54,9 +56,27 @@ def gen_one(rng):
     return {"k": k, "interval": interval, "offset": offset, "ticks": ticks, "setup_dur": setup}
 
 
+def gen_sys(rng):
+    """whole system: launch() with a fixed-interval interaction, a time scale and dyadic durations (so that every instant of
+    the run is an exact float): the inference thread's step starts go through the same model and oracle"""
+    interval = rng.choice([16, 24, 32, 64]) / 1024
+    return {"kind": "sys", "k": rng.choice([[1, 2], [1, 2], [2, 1], [4, 1], [1, 1]]), "interval": [int(interval * 1024), 1024], "offset": [0, 1],
+            "spec": {"seed": rng.randrange(10**9), "step_dur": rng.choice([0, 1, 4, 40]) / 1024, "train_dur": 1 / 512, "hook_dur": 0, "pause_timeout": 1.0,
+                     "attempts": 1, "queue_size": 1, "loop_delay": 1 / 1024, "chooser": rng.choice(["random", "pct"]), "pct_depth": 3, "max_events": 20000, "budget": 30.0,
+                     "fixed_interval": [interval, 0.0], "time_scale": None, "cmds": [["sleep", 0.5], ["shutdown", "retry"]]}}
+
+
 def gen(rng, tier):
-    n = {"quick": 1500, "thorough": 40000, "search": 5000}[tier]
-    return [gen_one(rng) for _ in range(n)]
+    n, ns = {"quick": (1500, 30), "thorough": (40000, 600), "search": (5000, 150)}[tier]
+    cases = [gen_one(rng) for _ in range(n)]
+    for _ in range(ns):
+        c = gen_sys(rng); c["spec"]["time_scale"] = c["k"][0] / c["k"][1]
+        if rng.random() < 0.5:
+            # the inference thread gets the processor whenever it can for the first choices: it is through its set-up
+            # and first step before the launching thread goes on
+            c["spec"]["schedule"] = ["bg0"] * rng.randint(30, 400)
+        cases.append(c)
+    return cases
 
 
 def precheck(case, obs):
@@ -71,7 +91,8 @@ def _q(p):
 
 def coq_input(case, obs):
     W = Fraction(*case["interval"]) - Fraction(*case["offset"])
-    ticks = cl("{| pause_len := %s; eps := %s; dur := %s |}" % (_q(t["pause"]), _q(t["eps"]), _q(t["dur"])) for t in case["ticks"])
+    tk = obs["derived_ticks"] if case.get("kind") == "sys" else case["ticks"]      # whole-system runs: read off the run
+    ticks = cl("{| pause_len := %s; eps := %s; dur := %s |}" % (_q(t["pause"]), _q(t["eps"]), _q(t["dur"])) for t in tk)
     return "{| i_k := %s; i_W := %s; i_t0 := %s; i_ticks := %s |}" % (_q(case["k"]), cq(W), _q(obs["t0"]), ticks)
 
 
@@ -87,6 +108,8 @@ def coq_expected(case, obs):
 
 
 def nontrivial(case, obs):
+    if case.get("kind") == "sys":
+        return len(obs.get("starts") or []) >= 5 and case["k"] != [1, 1]
     k = Fraction(*case["k"])
     W = Fraction(*case["interval"]) - Fraction(*case["offset"])
     short = any(k * (Fraction(*t["eps"]) + Fraction(*t["dur"])) < W for t in case["ticks"])
@@ -103,6 +126,8 @@ def signature(case, obs):
 
 def shrink(case):
     out = []
+    if case.get("kind") == "sys":
+        return out
     ts = case["ticks"]
     for i in range(len(ts) - 1, -1, -1):
         c = dict(case); c["ticks"] = ts[:i] + ts[i + 1:]; out.append(c)
@@ -118,7 +143,10 @@ def describe(case, obs):
 
 def distribution(cases, obs):
     d = {"scale": {}, "ticks": 0, "short": 0, "exact": 0, "long": 0, "paused_ticks": 0, "nonpositive_W": 0}
+    d["whole_system_runs"] = sum(1 for c in cases if c.get("kind") == "sys")
     for c in cases:
+        if c.get("kind") == "sys":
+            continue
         k = Fraction(*c["k"]); W = Fraction(*c["interval"]) - Fraction(*c["offset"])
         d["scale"][f"{c['k'][0]}/{c['k'][1]}"] = d["scale"].get(f"{c['k'][0]}/{c['k'][1]}", 0) + 1
         d["nonpositive_W"] += int(W <= 0)
